@@ -147,6 +147,36 @@ fn c13_conc(rng: &mut Rng, name: &'static str) -> Prepared {
     prep(conc(rng, "C13", name, &p))
 }
 
+/// C13 with weight-changing upserts in flight: UpdateWeight commands are queued ahead of Shutdown
+/// while shutdown() clears the store and the weights on the caller's thread.
+fn c13_conc_upserts(rng: &mut Rng, name: &'static str) -> Prepared {
+    let mut p = ConcParams::base();
+    p.shutdowns = rng.range(1, 2) as usize;
+    p.threads = (2, 4);
+    p.ops = (4, 12);
+    p.keys = (2, 4);
+    p.mix = [22, 48, 6, 14, 2, 1, 5, 2];
+    p.wait_mix = [25, 40, 35];
+    p.ttl_pct = 15;
+    p.tiny_queue_pct = 40;
+    p.stall_pct = 60;
+    p.stall_roles = vec![RoleName::Worker];
+    p.pressure = Pressure::Fits;
+    let mut sc = conc(rng, "C13", name, &p);
+    sc.cfg.shards = 2;
+    // every thread first makes sure its keys exist, so that later upserts are applied in place
+    let keys = sc.cfg.keys;
+    for (t, prog) in sc.threads.iter_mut().enumerate() {
+        if prog.iter().any(|o| matches!(o, Op::Shutdown)) {
+            continue;
+        }
+        let mut pre: Vec<Op> = (0..keys).filter(|k| (*k as usize) % 2 == t % 2).map(|k| Op::Put { key: k, val: token(t, 800 + k as usize, k), weight: None, ttl: None, wait: Wait::Now }).collect();
+        pre.extend(prog.drain(..));
+        *prog = pre;
+    }
+    prep(sc)
+}
+
 // ---------------------------------------------------------------- C18
 fn c18_conc(rng: &mut Rng, name: &'static str) -> Prepared {
     let mut p = ConcParams::base();
@@ -587,6 +617,8 @@ fn focus_for(name: &str) -> (Focus, Own) {
             f.mix = [30, 2, 6, 60, 0, 1, 0, 1];
             f.ttl_pct = 0;
             f.mirror = true;
+            // compare only every few steps: in between, batches stay in flight while puts evict
+            f.mirror_every = 4;
             own_c14
         }
         "C07" => {
@@ -1065,7 +1097,7 @@ pub fn plan(property: &str) -> Vec<Stratum> {
         "C10" => vec![Stratum { name: "seq-sweeps", share: 6, gen: c10_seq }, Stratum { name: "conc-owners-sweeps", share: 4, gen: c10_conc }],
         "C11" => vec![Stratum { name: "conc-bursts", share: 10, gen: c11_conc }],
         "C12" => vec![Stratum { name: "conc-passive", share: 5, gen: c12_conc }, Stratum { name: "ack-manual-polls", share: 5, gen: c12_ack }],
-        "C13" => vec![Stratum { name: "conc-chaos", share: 10, gen: c13_conc }],
+        "C13" => vec![Stratum { name: "conc-chaos", share: 6, gen: c13_conc }, Stratum { name: "conc-chaos-upserts", share: 4, gen: c13_conc_upserts }],
         "C14" => vec![Stratum { name: "seq-sketch-mirror", share: 7, gen: c14_seq }, Stratum { name: "seq-sketch-mirror-pressure", share: 3, gen: c14_seq_pressure }],
         "C15" => vec![Stratum { name: "pipe", share: 10, gen: c15_pipe }],
         "C16" => vec![Stratum { name: "seq-model", share: 6, gen: c16_seq }, Stratum { name: "conc-quiescent", share: 4, gen: c16_conc }],
@@ -1132,7 +1164,7 @@ pub fn judge(property: &str, sc: &Scenario, out: &RunOutput, _rec: &SchedRecord)
         "C05" if conc => oracle::quiescent_accounting(&hx, "C05", &mut v),
         "C07" if conc => oracle::c07_conc(sc, &hx, &mut v),
         "C08" if conc => oracle::c08_conc(sc, &hx, &mut v),
-        "C09" if conc => oracle::c09_conc(sc, &hx, &mut v, sc.stratum.ends_with("fits")),
+        "C09" if conc => oracle::c09_conc(sc, &hx, &mut v, sc.stratum.contains("fits")),
         "C10" if conc => oracle::c10_conc(sc, &hx, &mut v),
         "C11" => oracle::c11(sc, &hx, &out.chans, &mut v),
         "C12" => {
